@@ -32,6 +32,9 @@ def plan(tier, seed, pid='C11'):
         for pat in rnd.sample([p for p in range(512) if bin(p).count('1') <= 5], 12):
             for g in (1, 2):
                 qs.append(equ_query(pid, 3, 3, pat, g))
+    # driver part of the contract: which of R / C scales B and X, for every trans x storage x fact x flag, 1 and 2 right-hand sides
+    from props.C07 import plan as c07plan
+    qs += c07plan(tier, seed, pid='C11')
     return qs
 
 META = {
@@ -39,7 +42,7 @@ META = {
     'engines': 'E2: cbmc symex of the real dgsequ/dlaqgs -> SMT-LIB -> fp2alg Real -> z3 5.1',
     'bounds': {'matrices': 'every m x n pattern with m,n<=2 (incl. empty rows/columns, 1x1); 3x3: quick 12 sampled patterns with <= 5 entries, thorough all 512 for the apply step and all with <= 6 entries for the scale-factor group (denser ones did not finish within the cap on the unchanged tree)',
                'values': 'all reals; safe minimum / precision are the exact IEEE double constants (float constants for the single-precision queries)', 'precisions': 'd; s on five 1x1/2x2 patterns'},
-    'outside': ['finiteness / overflow of products near the clipping bounds (IEEE range)', 'complex |z| = |re|+|im| variants', 'the driver part (which of R/C scales B and X): C07'],
+    'outside': ['finiteness / overflow of products near the clipping bounds (IEEE range)', 'complex |z| = |re|+|im| variants', 'values of X (the driver queries use recording stubs for the solve)'],
     'assumptions': ['floating point reinterpreted as the ordered field of reals; dlamch_ replaced by exact constants'],
     'trusted_base': ['cbmc 6.11', 'tools/fp2alg.py', 'z3 5.1.0'],
     'exhaustive_thorough': True,
